@@ -48,6 +48,7 @@ func init() {
 		harnessPkg + ".LiveLibGoroutines": hLiveLib,
 		harnessPkg + ".AllowTimerFires": hAllowFires,
 		harnessPkg + ".TimerFires":      hTimerFires,
+		harnessPkg + ".Now":             func(in *Interp, g *G, fv *FuncV, a []Value) Value { return in.st.now },
 		harnessPkg + ".IsSymbolic":      func(in *Interp, g *G, fv *FuncV, a []Value) Value { return in.tc.True },
 		harnessPkg + ".AtoiOK":          hAtoiOK,
 		harnessPkg + ".AtoiVal":         hAtoiVal,
@@ -777,6 +778,7 @@ func (in *Interp) ctxMethod(c *CtxObj, name string, args []Value) Value {
 func (in *Interp) newTimer(d *Term, fn *FuncV) (*TimerObj, *Cell) {
 	in.st.nextID++
 	t := &TimerObj{id: in.st.nextID, Armed: true, Fn: fn}
+	t.deadline = in.tc.BVBin(OpBVAdd, in.st.now, in.durationOf(d))
 	if in.cur != nil {
 		t.armVC = append([]int(nil), in.cur.vc...)
 	}
@@ -826,14 +828,19 @@ func sTimerReset(in *Interp, g *G, fv *FuncV, a []Value) Value {
 	t := timerOf(a[0])
 	was := t.Armed
 	t.Armed = true
+	t.deadline = in.tc.BVBin(OpBVAdd, in.st.now, in.durationOf(a[1].(*Term)))
 	if in.cur != nil {
 		t.armVC = append([]int(nil), in.cur.vc...)
 	}
 	return in.tc.Bool(was)
 }
 
+// durationOf: logical time (a symbolic BV64) advances only when timers fire.
+func (in *Interp) durationOf(d *Term) *Term { return d }
+
 func (in *Interp) fireTimer(t *TimerObj) {
 	t.Armed = false
+	in.st.now = in.tc.Ite(in.tc.BVCmp(OpBVSlt, in.st.now, t.deadline), t.deadline, in.st.now)
 	t.Fires++
 	in.st.fires++
 	if t.Fn != nil {
